@@ -1808,8 +1808,406 @@ fn body_filter_enumeration(emit: &mut dyn FnMut(Value)) {
     }
 }
 
+
+// ------------------------------------------------------------------------------------------------
+// boundary values of every field, and diff-directed hint cases
+// ------------------------------------------------------------------------------------------------
+
+const BASE_ACTION: &str = r#"{"status_code_update":{"status_code":302,"on_response_status_codes":[404,410],"exclude_response_status_codes":false,"fallback_status_code":301,"rule_id":"r2","fallback_rule_id":"r1","unit_id":"u1","target_hash":"status_code"},"header_filters":[{"filter":{"action":"override","header":"Location","value":"/t","id":"u1","target_hash":"h1"},"on_response_status_codes":[404],"exclude_response_status_codes":true,"rule_id":"r2"},{"filter":{"action":"add","header":"X-A","value":"1","id":null,"target_hash":null},"on_response_status_codes":[],"exclude_response_status_codes":false,"rule_id":"r1"}],"body_filters":[{"filter":{"action":"append_text","content":"tail","id":"u3","target_hash":"h3"},"on_response_status_codes":[],"exclude_response_status_codes":false,"rule_id":"r1"},{"filter":{"action":"append_child","value":"<b>v</b>","inner_value":"<i>in</i>","element_tree":["html","body"],"css_selector":"div.c","id":"u2","target_hash":"h2"},"on_response_status_codes":[200],"exclude_response_status_codes":true,"rule_id":"r2"}],"rule_ids":["r1","r2"],"rule_traces":[{"id":"r1","on_response_status_codes":[],"exclude_response_status_codes":false},{"id":"r2","on_response_status_codes":[404,410],"exclude_response_status_codes":true}],"rules_applied":["r2"],"log_override":{"log_override":false,"rule_id":"r2","on_response_status_codes":[500],"exclude_response_status_codes":false,"fallback_log_override":true,"fallback_rule_id":"r1","unit_id":"u4"}}"#;
+
+const BASE_REQUEST: &str = r#"{"path_and_query":{"path_and_query":"/x?a=1","path_and_query_matching":"/x?a=1","skipped_query_params":"utm_source=b","original":"/x?a=1&utm_source=b"},"path_and_query_v2":"/x?a=1&utm_source=b","host":"example.org","scheme":"https","method":"GET","headers":[{"name":"X-A","value":"1"},{"name":"x-a","value":"2"}],"remote_addr":"10.1.2.3","created_at":"2024-01-02T03:04:05.123Z","sampling_override":true}"#;
+
+/// every textual family of an address (canonical ones are read by the model's concrete reader, the others by the oracle)
+const IP_FAMILIES: &[&str] = &[
+    "10.1.2.3", "0.0.0.0", "255.255.255.255", "::", "::1", "1::", "::ffff:10.1.2.3", "::ffff:0.0.0.0", "::ffff:a01:203", "::10.1.2.3", "2001:db8::1", "2001:db8:0:0:1:0:0:1",
+    "2001:0db8:0000:0000:0000:0000:0000:0001", "2001:DB8::1", "1:2:3:4:5:6:7:8", "1:0:0:2:0:0:0:3", "0:0:1::", "fe80::1%eth0", "10.1.2.3:80", "[::1]:80", "[::1]", " 10.1.2.3", "10.1.2.3 ",
+    "010.1.2.3", "10.1.2", "10.1.2.3.4", "10.1.2.256", "::ffff:10.1.2.3:80", "1::2::3", ":::", "",
+];
+
+const DT_FAMILIES: &[&str] = &[
+    "2024-01-02T03:04:05Z", "2024-01-02T03:04:05.1Z", "2024-01-02T03:04:05.12Z", "2024-01-02T03:04:05.123Z", "2024-01-02T03:04:05.1234Z", "2024-01-02T03:04:05.123456Z", "2024-01-02T03:04:05.123456789Z",
+    "2024-01-02T03:04:05.1234567891Z", "2024-01-02T03:04:05.000Z", "2024-01-02T03:04:05+00:00", "2024-01-02T03:04:05+01:00", "2024-01-02T03:04:05-01:30", "2024-01-02T03:04:05.5+14:00", "2024-01-02T03:04:05+0100",
+    "2024-01-02 03:04:05Z", "2024-01-02t03:04:05z", "2024-01-02T03:04:60Z", "2024-02-30T00:00:00Z", "2024-01-02T24:00:00Z", "+12024-01-02T03:04:05Z", "-0001-12-31T23:59:59.999999999Z", "2024-01-02T03:04:05", "2024-01-02",
+];
+
+fn set_path(j: &mut J, path: &[&str], v: J) -> bool {
+    if path.is_empty() {
+        *j = v;
+        return true;
+    }
+    match j {
+        J::O(kvs) => {
+            for (k, x) in kvs.iter_mut() {
+                if k == path[0] {
+                    return set_path(x, &path[1..], v);
+                }
+            }
+            false
+        }
+        J::A(xs) => match path[0].parse::<usize>() {
+            Ok(i) if i < xs.len() => set_path(&mut xs[i], &path[1..], v),
+            _ => false,
+        },
+        _ => false,
+    }
+}
+
+fn drop_path(j: &mut J, path: &[&str]) -> bool {
+    if path.len() == 1 {
+        if let J::O(kvs) = j {
+            let n = kvs.len();
+            kvs.retain(|(k, _)| k != path[0]);
+            return kvs.len() != n;
+        }
+        return false;
+    }
+    match j {
+        J::O(kvs) => kvs.iter_mut().find(|(k, _)| k == path[0]).map(|(_, x)| drop_path(x, &path[1..])).unwrap_or(false),
+        J::A(xs) => path[0].parse::<usize>().ok().and_then(|i| xs.get_mut(i)).map(|x| drop_path(x, &path[1..])).unwrap_or(false),
+        _ => false,
+    }
+}
+
+fn strs(xs: &[&str]) -> J {
+    J::A(xs.iter().map(|x| J::S((*x).to_string())).collect())
+}
+
+fn nums(xs: &[u64]) -> J {
+    J::A(xs.iter().map(|x| J::U(*x)).collect())
+}
+
+/// (path, boundary values) for every Option / Vec / bool field of every serialised struct of an action
+fn action_slots() -> Vec<(Vec<&'static str>, Vec<J>)> {
+    let os = |s: &str| vec![J::Null, J::S(String::new()), J::S(s.to_string())];
+    let ob = || vec![J::Null, J::Bool(false), J::Bool(true)];
+    let bb = || vec![J::Bool(false), J::Bool(true)];
+    let codes = || vec![nums(&[]), nums(&[404]), nums(&[0]), nums(&[65535]), nums(&[404, 404]), nums(&[200, 301, 404])];
+    let mut v: Vec<(Vec<&'static str>, Vec<J>)> = Vec::new();
+    v.push((vec!["status_code_update"], vec![J::Null]));
+    for f in ["status_code", "fallback_status_code"] {
+        v.push((vec!["status_code_update", f], vec![J::U(0), J::U(1), J::U(200), J::U(301), J::U(65535)]));
+    }
+    v.push((vec!["status_code_update", "on_response_status_codes"], codes()));
+    v.push((vec!["status_code_update", "exclude_response_status_codes"], bb()));
+    for f in ["rule_id", "fallback_rule_id", "unit_id", "target_hash"] {
+        v.push((vec!["status_code_update", f], os("x")));
+    }
+    v.push((vec!["header_filters"], vec![J::A(vec![])]));
+    v.push((vec!["body_filters"], vec![J::A(vec![])]));
+    for (list, n) in [("header_filters", 2usize), ("body_filters", 2)] {
+        for i in ["0", "1"].iter().take(n) {
+            v.push((vec![list, i, "on_response_status_codes"], codes()));
+            v.push((vec![list, i, "exclude_response_status_codes"], bb()));
+            v.push((vec![list, i, "rule_id"], os("x")));
+            v.push((vec![list, i, "filter", "id"], os("x")));
+            v.push((vec![list, i, "filter", "target_hash"], os("x")));
+        }
+    }
+    v.push((vec!["body_filters", "1", "filter", "inner_value"], os("<i>x</i>")));
+    v.push((vec!["body_filters", "1", "filter", "css_selector"], os("p")));
+    v.push((vec!["body_filters", "1", "filter", "element_tree"], vec![strs(&[]), strs(&["p"]), strs(&["html", "body", "div"]), strs(&[""])]));
+    v.push((vec!["body_filters", "1", "filter", "action"], vec![J::S("prepend_child".into()), J::S("replace".into()), J::S("append_text".into()), J::S(String::new())]));
+    v.push((vec!["body_filters", "0", "filter", "action"], vec![J::S("prepend_text".into()), J::S("replace_text".into())]));
+    v.push((vec!["body_filters", "0", "filter", "content"], vec![J::S(String::new())]));
+    v.push((vec!["rule_ids"], vec![strs(&[]), strs(&["a"]), strs(&["a", "b", "c"])]));
+    v.push((vec!["rules_applied"], vec![strs(&[]), strs(&["a"]), strs(&["r1", "r2"])]));
+    v.push((vec!["rule_traces"], vec![J::A(vec![])]));
+    for i in ["0", "1"] {
+        v.push((vec!["rule_traces", i, "on_response_status_codes"], codes()));
+        v.push((vec!["rule_traces", i, "exclude_response_status_codes"], bb()));
+    }
+    v.push((vec!["log_override"], vec![J::Null]));
+    v.push((vec!["log_override", "log_override"], bb()));
+    v.push((vec!["log_override", "fallback_log_override"], ob()));
+    v.push((vec!["log_override", "on_response_status_codes"], codes()));
+    v.push((vec!["log_override", "exclude_response_status_codes"], bb()));
+    for f in ["rule_id", "fallback_rule_id", "unit_id"] {
+        v.push((vec!["log_override", f], os("x")));
+    }
+    v
+}
+
+fn request_slots() -> Vec<(Vec<&'static str>, Vec<J>)> {
+    let os = |s: &str| vec![J::Null, J::S(String::new()), J::S(s.to_string())];
+    let mut v: Vec<(Vec<&'static str>, Vec<J>)> = Vec::new();
+    v.push((vec!["path_and_query", "path_and_query_matching"], os("/X?A=1")));
+    v.push((vec!["path_and_query", "skipped_query_params"], os("utm_medium=c")));
+    v.push((vec!["path_and_query", "path_and_query"], vec![J::S(String::new())]));
+    v.push((vec!["path_and_query", "original"], vec![J::S(String::new())]));
+    v.push((vec!["path_and_query_v2"], os("/y")));
+    v.push((vec!["host"], os("EXAMPLE.org")));
+    v.push((vec!["scheme"], os("http")));
+    v.push((vec!["method"], os("POST")));
+    v.push((vec!["headers"], vec![J::A(vec![]), J::A(vec![J::O(vec![("name".into(), J::S("Host".into())), ("value".into(), J::S(String::new()))])])]));
+    v.push((vec!["sampling_override"], vec![J::Null, J::Bool(false), J::Bool(true)]));
+    v.push((vec!["remote_addr"], std::iter::once(J::Null).chain(IP_FAMILIES.iter().map(|s| J::S((*s).to_string()))).collect()));
+    v.push((vec!["created_at"], std::iter::once(J::Null).chain(DT_FAMILIES.iter().map(|s| J::S((*s).to_string()))).collect()));
+    v
+}
+
+fn emit_value(emit: &mut dyn FnMut(Value), ty: &str, j: &J, tag: &str) {
+    // as a `de` case (model vs from_str) and, when it is an action, through every round-trip / behaviour oracle
+    emit_de(emit, ty, j, &[tag]);
+    if ty == "action" {
+        emit(json!({"k": "action", "j": j.tagged(), "src": [], "probe": {"codes": [0, 200, 404], "headers": [["Content-Type", "text/html"]], "bodies": ["<html><body><div class=\"c\">x</div><p>y</p></body></html>"]}}));
+    } else if ty == "request" {
+        emit(json!({"k": "request", "j": j.tagged(), "src": [], "atoms": atoms_of(j)}));
+    }
+}
+
+/// one case per boundary value of every Option / Vec / bool field (present, `null`, absent), cheap and always emitted
+fn boundary_cases(emit: &mut dyn FnMut(Value)) {
+    for (ty, base, slots) in [("action", BASE_ACTION, action_slots()), ("request", BASE_REQUEST, request_slots())] {
+        let base = J::parse(base).unwrap();
+        emit_value(emit, ty, &base, "boundary:base");
+        for (path, alts) in &slots {
+            for alt in alts {
+                let mut j = base.clone();
+                if set_path(&mut j, path, alt.clone()) {
+                    emit_value(emit, ty, &j, "boundary:value");
+                }
+            }
+            let mut j = base.clone();
+            if drop_path(&mut j, path) {
+                emit_de(emit, ty, &j, &["boundary:absent"]);
+            }
+        }
+    }
+}
+
+/// all key paths of a value (object keys and array indices as strings)
+fn key_paths(j: &J, cur: &mut Vec<String>, out: &mut Vec<Vec<String>>) {
+    match j {
+        J::O(kvs) => {
+            for (k, x) in kvs {
+                cur.push(k.clone());
+                out.push(cur.clone());
+                key_paths(x, cur, out);
+                cur.pop();
+            }
+        }
+        J::A(xs) => {
+            for (i, x) in xs.iter().enumerate() {
+                cur.push(i.to_string());
+                key_paths(x, cur, out);
+                cur.pop();
+            }
+        }
+        _ => {}
+    }
+}
+
+fn with_parent<'a>(j: &'a mut J, path: &[String]) -> Option<&'a mut Vec<(String, J)>> {
+    let mut cur = j;
+    for p in &path[..path.len() - 1] {
+        cur = match cur {
+            J::O(kvs) => &mut kvs.iter_mut().find(|(k, _)| k == p)?.1,
+            J::A(xs) => xs.get_mut(p.parse::<usize>().ok()?)?,
+            _ => return None,
+        };
+    }
+    match cur {
+        J::O(kvs) => Some(kvs),
+        _ => None,
+    }
+}
+
+/// diff-directed cases: the numbers and strings mentioned by the changed source lines
+fn hint_cases(h: &Hints, emit: &mut dyn FnMut(Value)) {
+    let bases = [("action", J::parse(BASE_ACTION).unwrap(), action_slots()), ("request", J::parse(BASE_REQUEST).unwrap(), request_slots())];
+    // ---- numbers: status codes, list lengths, nesting
+    let mut codes: Vec<u64> = Vec::new();
+    for n in &h.nums {
+        for d in [-1i64, 0, 1] {
+            let v = *n as i64 + d;
+            if v >= 0 && !codes.contains(&(v as u64)) {
+                codes.push(v as u64);
+            }
+        }
+    }
+    let (_, abase, _) = &bases[0];
+    for c in &codes {
+        for path in [vec!["status_code_update", "status_code"], vec!["status_code_update", "fallback_status_code"]] {
+            let mut j = abase.clone();
+            set_path(&mut j, &path, J::U(*c));
+            emit_value(emit, "action", &j, "hint:code");
+        }
+        for path in [vec!["status_code_update", "on_response_status_codes"], vec!["log_override", "on_response_status_codes"], vec!["header_filters", "0", "on_response_status_codes"],
+                     vec!["body_filters", "1", "on_response_status_codes"], vec!["rule_traces", "1", "on_response_status_codes"]] {
+            for excl in [false, true] {
+                let mut j = abase.clone();
+                set_path(&mut j, &path, nums(&[*c]));
+                let mut ep = path.clone();
+                ep.pop();
+                ep.push("exclude_response_status_codes");
+                set_path(&mut j, &ep, J::Bool(excl));
+                if *c <= 65535 {
+                    // the hinted number is also the probed response code
+                    emit_de(emit, "action", &j, &["hint:code-list"]);
+                    emit(json!({"k": "action", "j": j.tagged(), "src": [], "probe": {"codes": [*c, c.saturating_sub(1), (*c + 1).min(65535)], "headers": [["Content-Type", "text/html"]], "bodies": ["<html><body><p>y</p></body></html>"]}}));
+                } else {
+                    emit_de(emit, "action", &j, &["hint:code-list"]);
+                }
+            }
+        }
+    }
+    for k in h.sizes(40) {
+        let ids: Vec<String> = (0..k).map(|i| format!("r{i}")).collect();
+        let idrefs: Vec<&str> = ids.iter().map(|s| s.as_str()).collect();
+        for path in [vec!["rule_ids"], vec!["rules_applied"], vec!["body_filters", "1", "filter", "element_tree"]] {
+            let mut j = abase.clone();
+            set_path(&mut j, &path, strs(&idrefs));
+            emit_value(emit, "action", &j, "hint:len");
+        }
+        let mut j = abase.clone();
+        set_path(&mut j, &["status_code_update", "on_response_status_codes"], nums(&(0..k as u64).map(|i| 400 + i).collect::<Vec<u64>>()));
+        emit_value(emit, "action", &j, "hint:len");
+        for list in ["header_filters", "body_filters", "rule_traces"] {
+            let mut j = abase.clone();
+            if let J::O(kvs) = &mut j {
+                for (key, x) in kvs.iter_mut() {
+                    if key == list {
+                        if let J::A(xs) = x {
+                            let first = xs[xs.len() - 1].clone();
+                            *xs = (0..k).map(|_| first.clone()).collect();
+                        }
+                    }
+                }
+            }
+            emit_value(emit, "action", &j, "hint:len");
+        }
+        let (_, rbase, _) = &bases[1];
+        let mut j = rbase.clone();
+        set_path(&mut j, &["headers"], J::A((0..k).map(|i| J::O(vec![("name".into(), J::S(format!("X-{i}"))), ("value".into(), J::S("v".into()))])).collect()));
+        emit_value(emit, "request", &j, "hint:len");
+    }
+    for d in h.sizes(300) {
+        let mut v = J::U(1);
+        for _ in 0..d {
+            v = J::A(vec![v]);
+        }
+        let mut j = abase.clone();
+        if let J::O(kvs) = &mut j {
+            kvs.push(("extra".into(), v.clone()));
+        }
+        emit_de(emit, "action", &j, &["hint:depth"]);
+        let mut j = abase.clone();
+        if let Some(kvs) = with_parent(&mut j, &["body_filters".to_string(), "0".to_string(), "filter".to_string(), "x".to_string()]) {
+            kvs.push(("extra".into(), v));
+        }
+        emit_de(emit, "action", &j, &["hint:depth"]);
+    }
+    // ---- strings: as keys (drop / null / rename / duplicate / boundary values of exactly that field) and as values
+    for s in &h.strs {
+        let variants: Vec<String> = {
+            let mut v = vec![s.clone(), s.to_uppercase(), s.to_lowercase(), format!(" {s}"), format!("{s} ")];
+            v.dedup();
+            v
+        };
+        for (ty, base, slots) in &bases {
+            let mut paths = Vec::new();
+            key_paths(base, &mut Vec::new(), &mut paths);
+            let hits: Vec<&Vec<String>> = paths.iter().filter(|p| p.last().map(|k| k == s).unwrap_or(false)).collect();
+            for path in &hits {
+                let pr: Vec<&str> = path.iter().map(|x| x.as_str()).collect();
+                // absent, null
+                let mut j = base.clone();
+                drop_path(&mut j, &pr);
+                emit_de(emit, ty, &j, &["hint:key-absent"]);
+                let mut j = base.clone();
+                set_path(&mut j, &pr, J::Null);
+                emit_value(emit, ty, &j, "hint:key-null");
+                // renamed / duplicated
+                for new_key in [s.to_uppercase(), format!("{s}_"), s.replace('_', "-")] {
+                    let mut j = base.clone();
+                    if let Some(kvs) = with_parent(&mut j, path) {
+                        for (k, _) in kvs.iter_mut() {
+                            if k == s {
+                                *k = new_key.clone();
+                            }
+                        }
+                    }
+                    emit_de(emit, ty, &j, &["hint:key-renamed"]);
+                }
+                let mut j = base.clone();
+                if let Some(kvs) = with_parent(&mut j, path) {
+                    if let Some(e) = kvs.iter().find(|(k, _)| k == s).cloned() {
+                        kvs.push(e.clone());
+                        kvs.insert(0, (e.0, J::Null));
+                    }
+                }
+                emit_de(emit, ty, &j, &["hint:key-duplicated"]);
+                // every boundary value of exactly that field
+                for (sp, alts) in slots.iter() {
+                    if sp.len() == pr.len() && sp.iter().zip(pr.iter()).all(|(a, b)| a == b) {
+                        for alt in alts {
+                            let mut j = base.clone();
+                            set_path(&mut j, &pr, alt.clone());
+                            emit_value(emit, ty, &j, "hint:key-boundary");
+                        }
+                    }
+                }
+            }
+            // as an unknown key next to the known ones, and as the value of every string field
+            let mut j = base.clone();
+            if let J::O(kvs) = &mut j {
+                kvs.insert(0, (s.clone(), J::S(s.clone())));
+            }
+            emit_value(emit, ty, &j, "hint:extra-key");
+            for path in &paths {
+                let pr: Vec<&str> = path.iter().map(|x| x.as_str()).collect();
+                if matches!(node_at(base, &pr), Some(J::S(_))) {
+                    for v in &variants {
+                        let mut j = base.clone();
+                        set_path(&mut j, &pr, J::S(v.clone()));
+                        emit_value(emit, ty, &j, "hint:value");
+                    }
+                }
+            }
+        }
+        // as (part of) an address / instant text
+        let (_, rbase, _) = &bases[1];
+        for text in [s.clone(), format!("::ffff:{s}"), format!("{s}:80"), format!("[{s}]"), format!("[{s}]:80"), format!(" {s}"), format!("{s} "), format!("{s}%eth0"), format!("::{s}"), format!("{s}::")] {
+            let mut j = rbase.clone();
+            set_path(&mut j, &["remote_addr"], J::S(text.clone()));
+            emit_de(emit, "request", &j, &["hint:ip-text"]);
+            let mut j = rbase.clone();
+            set_path(&mut j, &["created_at"], J::S(text));
+            emit_de(emit, "request", &j, &["hint:dt-text"]);
+        }
+    }
+    // ---- always in hint mode: every address / instant family once more on the request with all options set / unset
+    let (_, rbase, _) = &bases[1];
+    for ip in IP_FAMILIES {
+        for dt in ["2024-01-02T03:04:05.5+01:00", "2024-01-02T03:04:05Z"] {
+            let mut j = rbase.clone();
+            set_path(&mut j, &["remote_addr"], J::S((*ip).to_string()));
+            set_path(&mut j, &["created_at"], J::S(dt.to_string()));
+            emit_de(emit, "request", &j, &["hint:families"]);
+        }
+    }
+}
+
+fn node_at<'a>(j: &'a J, path: &[&str]) -> Option<&'a J> {
+    let mut cur = j;
+    for p in path {
+        cur = match cur {
+            J::O(kvs) => &kvs.iter().find(|(k, _)| k == p)?.1,
+            J::A(xs) => xs.get(p.parse::<usize>().ok()?)?,
+            _ => return None,
+        };
+    }
+    Some(cur)
+}
+
 fn gen(args: &Args, emit: &mut dyn FnMut(Value)) {
     let mut rng = Prng::new(args.seed);
+    // diff-directed cases first (empty on the unchanged tree), then one case per boundary value of every field
+    let h = hints();
+    if !h.is_empty() {
+        hint_cases(&h, emit);
+    }
+    boundary_cases(emit);
     if args.tier == "thorough" {
         body_filter_enumeration(emit);
     }
